@@ -229,6 +229,8 @@ FIELD_POOL = {
     "TXT": ("TXT", '"x"', "OPT∧TYPE[STRING]", None),
     "FLAG": ("FLAG", "true", "OPT∧TYPE[BOOLEAN]", None),
     "TAGS": ("TAGS", "[a,b]", "OPT∧TYPE[LIST]", None),
+    "TAGS2": ("TAGS2", "[a]", "OPT∧TYPE[LIST]∧MAX_LENGTH[1]", None),
+    "TAGS3": ("TAGS3", "[a,b]", "OPT∧MIN_LENGTH[2]", None),
     "SLUG": ("SLUG", '"abc"', 'OPT∧REGEX["^[a-z]+$"]', None),
     "KIND": ("KIND", '"X"', "REQ∧CONST[X]", None),
     "CONFL": ("CONFL", '"x"', "REQ∧OPT", None),
@@ -278,7 +280,7 @@ def load_schema_text(text):
 
 HAND_SCHEMAS = [
     {"name": "SCHEMA_A", "uf": "REJECT", "fields": ["STATUS", "COUNT", "NAME", "NOTE"]},
-    {"name": "SCHEMA_B", "uf": "WARN", "fields": ["STATE", "AMB", "RCOUNT", "TAGS", "FLAG"]},
+    {"name": "SCHEMA_B", "uf": "WARN", "fields": ["STATE", "AMB", "RCOUNT", "TAGS", "FLAG", "TAGS2", "TAGS3"]},
     {"name": "SCHEMA_C", "uf": "IGNORE", "fields": ["BOTH", "NE", "EN", "PCT", "TF"]},
     {"name": "SCHEMA_D", "uf": "BOGUS", "targets": ["CUSTOM"], "default_target": "RISK_LOG",
      "fields": ["STATUS", "ROUTED", "MULTI", "CUST", "FREE", "PLAIN", "KIND"]},
@@ -455,10 +457,66 @@ NUM_STRINGS = [
     "1_000_000", "1__000", "1_000_", "٣_٣", "٣٣_", "1٣.٥", "1e٣", "−42", "＋42", "4２", "1．5", "1e５",
 ]
 
-WRONG_KINDS = [None, True, False, 0, 1, 42, -3, 4.5, 1e22, 100000.0, ("L", ["a", "b"]), ("L", []), ("L", [1, "2"]), ("M", [("k", "v")]),
+WRONG_KINDS = [None, True, False, 0, 1, 42, -3, 4.5, 1e22, 100000.0, ("L", ["a", "b"]), ("L", []), ("L", [1, "2"]), ("L", ["a"]), ("L", ["a", "b", "c"]), ("M", [("k", "v")]),
                ("Z", "x = 1", "python"), ("Z", "", None), ("L", [("L", ["a"])])]
 API_ONLY_KINDS = [float("inf"), float("-inf"), float("nan"), -0.0, ("L", [("Z", "1", None)]), ("M", [("STATUS", "active")])]
 GENERIC_STRINGS = ["", "x", "XYZ", "active", "A", "a", "1", " "]
+
+
+def random_numeral(rng) -> str:
+    """mostly well-formed numerals (sign, digit groups with underscores, fraction, exponent, Unicode
+    digits, blanks) with an occasional single-character mutation."""
+    D = "0123456789"
+    U = "٠١٢٣٤٥٦٧٨٩"
+
+    def digits(n):
+        alphabet = U if rng.random() < 0.1 else D
+        g = "".join(rng.choice(alphabet) for _ in range(rng.randint(1, n)))
+        while rng.random() < 0.2:
+            g += "_" + "".join(rng.choice(alphabet) for _ in range(rng.randint(1, 3)))
+        return g
+    s = rng.choice(["", "", "+", "-"])
+    r = rng.random()
+    if r < 0.08:
+        s += rng.choice(["inf", "Infinity", "nan", "NaN", "INF", "infinity"])
+    else:
+        if r < 0.5:
+            s += digits(6)
+        elif r < 0.75:
+            s += digits(4) + "." + (digits(4) if rng.random() < 0.8 else "")
+        else:
+            s += "." + digits(4)
+        if rng.random() < 0.4:
+            s += rng.choice("eE") + rng.choice(["", "+", "-"]) + digits(rng.choice([1, 1, 2, 3]))
+    if rng.random() < 0.25:
+        s = rng.choice([" ", "\t", "\u00a0", "  "]) + s + rng.choice([" ", "\n", "", "\u2003"])
+    if rng.random() < 0.3 and s:
+        i = rng.randrange(len(s))
+        m = rng.choice(["_", ".", "e", "-", " ", "x", "", "", "1", "٣"])
+        s = s[:i] + m + s[i + (rng.random() < 0.5):]
+    return s
+
+
+def to_tuples(j, value=False):
+    """inverse of json round trip for light trees (lists -> the tuples the generators use)."""
+    if value:
+        if isinstance(j, list):
+            if j and j[0] == "L":
+                return ("L", [to_tuples(x, True) for x in j[1]])
+            if j and j[0] == "M":
+                return ("M", [(k, to_tuples(x, True)) for k, x in j[1]])
+            if j and j[0] == "Z":
+                return ("Z", j[1], j[2])
+        return j
+    out = []
+    for n in j:
+        if n[0] == "A":
+            out.append(("A", n[1], to_tuples(n[2], True)))
+        elif n[0] == "B":
+            out.append(("B", n[1], n[2], to_tuples(n[3])))
+        elif n[0] == "S":
+            out.append(("S", n[1], n[2], to_tuples(n[3])))
+    return out
 
 
 def case_variants(a: str):
@@ -626,6 +684,10 @@ class Workdir:
         (self.dir / "specs" / "schemas" / (spec["name"].lower() + ".oct.md")).write_text(text, encoding="utf-8")
         return text
 
+    def add_schema_text(self, name: str, text: str) -> str:
+        (self.dir / "specs" / "schemas" / (name.lower() + ".oct.md")).write_text(text, encoding="utf-8")
+        return text
+
     def enter(self):
         os.chdir(self.dir)
 
@@ -650,6 +712,18 @@ def run_repair_api(sd, doc, fix=True):
         return before, after, log_dicts(log), None
     except Exception as e:  # the property gives repair no licence to raise
         return before, work, [], f"{type(e).__name__}: {e}"
+
+
+def run_repair_value(value, fd, fix=True):
+    """repair_value() on a deep copy of an AST value: (new value, log dicts, exception | None)."""
+    from octave_mcp.core.repair import repair_value
+    from octave_mcp.core.repair_log import RepairLog
+    log = RepairLog(repairs=[])
+    try:
+        v2, was = repair_value(copy.deepcopy(value), fd, log, fix=fix)
+        return v2, was, log_dicts(log), None
+    except Exception as e:
+        return None, False, [], f"{type(e).__name__}: {e}"
 
 
 def run_validate_tool(**kw):
